@@ -13,8 +13,19 @@ class SimAbort(BaseException):
 
 
 class ThreadSim(object):
-    def __init__(self, ch, trace_prefixes, switch_points=(), max_events=200000):
+    def __init__(self, ch, trace_prefixes, switch_points=(), max_events=200000, record=False,
+                 triggers=None):
+        """switch_points: global event indices at which to pre-empt (PCT style).
+        triggers: {(thread, filename, lineno): set(occurrence numbers)} -- location
+        based pre-emption points ("when thread t reaches this line for the k-th
+        time"), robust against the threads' event counts shifting.
+        record=True keeps the (filename, lineno) sequence of the run in
+        `self.locs` so that a pilot can be used to choose triggers."""
         self.ch = ch
+        self.record = record
+        self.locs = []
+        self.triggers = triggers or {}
+        self._occ = {}
         self.prefixes = tuple(trace_prefixes)
         self.switch_points = set(switch_points)
         self.max_events = max_events
@@ -56,15 +67,38 @@ class ThreadSim(object):
             self._point(frame)
         return self._local_trace
 
+    def lock_point(self, what, lock):
+        """Pre-emption opportunity at a lock boundary (SimLock calls this)."""
+        class _F(object):
+            pass
+        f = _F()
+
+        class _C(object):
+            co_filename = '<lock>'
+        f.f_code = _C
+        f.f_lineno = 1 if what == 'release' else 0
+        self._point(f)
+
     def _point(self, frame):
         self.events += 1
         n = self.events
+        fire = False
+        if self.record:
+            self.locs.append((frame.f_code.co_filename, frame.f_lineno))
+        if self.triggers:
+            key = (self.current, frame.f_code.co_filename, frame.f_lineno)
+            want = self.triggers.get(key)
+            if want is not None:
+                k = self._occ.get(key, 0) + 1
+                self._occ[key] = k
+                if k in want:
+                    fire = True
         if n > self.max_events:
             self._abort('event cap %d' % self.max_events)
             raise SimAbort('event cap')
         if self.aborting:
             raise SimAbort(self.abort_reason)
-        if n in self.switch_points:
+        if fire or n in self.switch_points:
             me = self.current
             others = [i for i, s in enumerate(self.state) if s == 'ready' and i != me]
             if others:
@@ -181,6 +215,7 @@ class SimLock(object):
     def acquire(self, blocking=True, timeout=-1):
         sim = self.sim
         me = self._me()
+        self._boundary('acquire')
         while self.owner is not None:
             if me == 'main' or not blocking:
                 if not blocking:
@@ -199,12 +234,19 @@ class SimLock(object):
         self.acquisitions += 1
         return True
 
+    def _boundary(self, what):
+        sim = self.sim
+        me = self._me()
+        if me != 'main' and not sim.aborting:
+            sim.lock_point(what, self)
+
     def release(self):
         sim = self.sim
         self.owner = None
         for i, s in enumerate(sim.state):
             if s == 'blocked':
                 sim.state[i] = 'ready'
+        self._boundary('release')
 
     def locked(self):
         return self.owner is not None
